@@ -13,7 +13,11 @@ EXTENDS Naturals, Sequences, FiniteSets, TLC, Json
 CONSTANTS NLogs       \* number of configured logs
 
 WitAns == {"valid", "missing", "wronglogkey", "nowitsig", "badwitsig", "corrupted", "otherlog", "error"}
-DistAns == {"200", "404", "500", "connerr", "redirect302", "redirect307"}
+\* "...then200": the first PUT for the log gets a transient answer, any further PUT gets 200. The code as it stands does not retry (the log
+\* counts as failed); an implementation that retries delivers with its second PUT. Both are behaviours of this spec - what is never allowed
+\* is a PUT whose body is not the witness' checkpoint (judged on the trace).
+Flaky == {"502then200", "503then200", "504then200", "429then200"}
+DistAns == {"200", "404", "500", "connerr", "redirect302", "redirect307"} \cup Flaky
 Idx == 1..NLogs
 
 VARIABLES wit,    \* [Idx -> WitAns]   what the witness answers for each log (scenario, never changes)
@@ -33,7 +37,8 @@ Process ==
     /\ pos <= NLogs /\ result = "running"
     /\ IF wit[pos] = "valid"
        THEN /\ puts' = puts \cup {pos}
-            /\ failed' = IF Delivered(dist[pos]) THEN failed ELSE failed \cup {pos}
+            /\ failed' \in IF dist[pos] \in Flaky THEN {failed, failed \cup {pos}}
+                          ELSE IF Delivered(dist[pos]) THEN {failed} ELSE {failed \cup {pos}}
        ELSE /\ puts' = puts /\ failed' = failed \cup {pos}
     /\ pos' = pos + 1
     /\ UNCHANGED <<wit, dist, result>>
@@ -49,7 +54,9 @@ Spec == Init /\ [][Next]_vars /\ WF_vars(Next)
 \* C15 on the model
 OnlyVerifiedArePushed == \A l \in puts : wit[l] = "valid"
 EveryLogAttempted == result # "running" => puts = {l \in Idx : wit[l] = "valid"}
-ErrorIffSomeLogFailed == result # "running" => (result = "error") = (\E l \in Idx : wit[l] # "valid" \/ ~Delivered(dist[l]))
+ErrorIffSomeLogFailed == result # "running" =>
+    /\ ((\E l \in Idx : wit[l] # "valid" \/ (dist[l] \notin Flaky /\ ~Delivered(dist[l]))) => result = "error")
+    /\ (result = "error" => \E l \in Idx : wit[l] # "valid" \/ ~Delivered(dist[l]))
 Terminates == <>(result # "running")
 
 EmitDist == result # "running" => PrintT("DIST " \o ToJson([wit |-> wit, dist |-> dist, puts |-> puts, result |-> result]))
